@@ -143,6 +143,11 @@ type fslice struct {
 	o             *fobj
 	off, len, cap int
 }
+
+// fsym: an address inside data the folder does not model (a package variable of a dependency); loading a field
+// element from it yields an opaque constant named by the path.
+type fsym struct{ path string }
+
 type fclosure struct {
 	fn   *ssa.Function
 	bind []any
@@ -150,11 +155,13 @@ type fclosure struct {
 type ftuple []any
 
 type folder struct {
-	steps   int
-	limit   int
-	depth   int
-	globals map[*ssa.Global]any
-	opaque  func(call *ssa.Call, f *ssa.Function, args []any) (any, bool) // module functions not to be entered
+	steps      int
+	limit      int
+	depth      int
+	globals    map[*ssa.Global]any
+	symGlobals bool                                                          // package variables of dependencies are opaque constants
+	enterDeps  bool                                                          // functions of dependencies may be folded too
+	opaque     func(call *ssa.Call, f *ssa.Function, args []any) (any, bool) // module functions not to be entered
 }
 
 type foldErr struct{ msg string }
@@ -169,7 +176,19 @@ func isFrElemType(t types.Type) bool {
 		}
 		return false
 	}
-	return n.Obj().Name() == "Element" && n.Obj().Pkg() != nil && strings.HasSuffix(n.Obj().Pkg().Path(), "bandersnatch/fr")
+	if n.Obj().Name() != "Element" || n.Obj().Pkg() == nil {
+		return false
+	}
+	if strings.HasSuffix(n.Obj().Pkg().Path(), "bandersnatch/fr") {
+		return true
+	}
+	// the dependency's field types (an array of 64-bit limbs named Element)
+	if a, isA := n.Underlying().(*types.Array); isA {
+		if b, isB := a.Elem().Underlying().(*types.Basic); isB && b.Kind() == types.Uint64 {
+			return true
+		}
+	}
+	return false
 }
 
 func (f *folder) zero(t types.Type) any {
@@ -267,6 +286,9 @@ func (f *folder) call(fn *ssa.Function, args []any, bind []any) any {
 		case *ssa.Function:
 			return fclosure{fn: x}
 		case *ssa.Global:
+			if f.symGlobals && (x.Pkg == nil || !strings.HasPrefix(x.Pkg.Pkg.Path(), core.Mod)) {
+				return fsym{x.Name()}
+			}
 			return f.global(x)
 		}
 		r, ok := env[v]
@@ -331,6 +353,13 @@ func (f *folder) call(fn *ssa.Function, args []any, bind []any) any {
 			case *ssa.UnOp:
 				switch x.Op {
 				case token.MUL:
+					if sy, isSym := get(x.X).(fsym); isSym {
+						if isFrElemType(x.Type()) {
+							env[x] = &fterm{op: "sym", s: sy.path}
+							break
+						}
+						f.fail("%s: load of something that is not a field element from %s", x, sy.path)
+					}
 					p, ok := get(x.X).(fptr)
 					if !ok || p.o == nil {
 						f.fail("%s: load through something that is not a tracked address", x)
@@ -447,6 +476,10 @@ func (f *folder) call(fn *ssa.Function, args []any, bind []any) any {
 			case *ssa.ChangeType:
 				env[x] = get(x.X)
 			case *ssa.IndexAddr:
+				if sy, isSym := get(x.X).(fsym); isSym {
+					env[x] = fsym{fmt.Sprintf("%s[%d]", sy.path, asInt(get(x.Index), x))}
+					break
+				}
 				i := int(asInt(get(x.Index), x))
 				switch base := get(x.X).(type) {
 				case fslice:
@@ -463,6 +496,10 @@ func (f *folder) call(fn *ssa.Function, args []any, bind []any) any {
 					f.fail("%s: indexing something untracked", x)
 				}
 			case *ssa.FieldAddr:
+				if sy, isSym := get(x.X).(fsym); isSym {
+					env[x] = fsym{fmt.Sprintf("%s.%d", sy.path, x.Field)}
+					break
+				}
 				base, ok := get(x.X).(fptr)
 				if !ok || base.o == nil {
 					f.fail("%s: field of something untracked", x)
@@ -623,12 +660,23 @@ func (f *folder) doCall(x *ssa.Call, args []any, get func(ssa.Value) any) any {
 		f.fail("%s: cannot resolve the callee", x)
 	}
 	// scalar-field operations are kept symbolic
-	if core.IsMethod(callee, "bandersnatch/fr", "Element", callee.Name()) && len(args) >= 1 {
+	isFieldMethod := core.IsMethod(callee, "bandersnatch/fr", "Element", callee.Name())
+	if !isFieldMethod && callee.Signature.Recv() != nil {
+		rt := callee.Signature.Recv().Type()
+		if pt, isP := rt.(*types.Pointer); isP {
+			rt = pt.Elem()
+		}
+		isFieldMethod = isFrElemType(rt)
+	}
+	if isFieldMethod && len(args) >= 1 {
 		recv, ok := args[0].(fptr)
 		if !ok || recv.o == nil {
 			f.fail("%s: receiver is not a tracked address", x)
 		}
 		arg := func(i int) *fterm {
+			if sy, isSym := args[i].(fsym); isSym {
+				return &fterm{op: "sym", s: sy.path}
+			}
 			p, ok := args[i].(fptr)
 			if !ok || p.o == nil {
 				f.fail("%s: operand %d is not a tracked address", x, i)
@@ -653,6 +701,14 @@ func (f *folder) doCall(x *ssa.Call, args []any, get func(ssa.Value) any) any {
 			r = fU(k)
 		case "Set":
 			r = arg(1)
+		case "SetInt64":
+			k, ok := args[1].(int64)
+			if !ok || k < 0 {
+				f.fail("%s: argument is not a non-negative integer", x)
+			}
+			r = fU(k)
+		case "Div":
+			r = fComm("mul", fOne, arg(1), fInv(arg(2)))
 		case "Inverse":
 			r = fInv(arg(1))
 		case "Neg":
@@ -680,6 +736,10 @@ func (f *folder) doCall(x *ssa.Call, args []any, get func(ssa.Value) any) any {
 		return fZero
 	case core.IsFunc(callee, "bandersnatch/fr", "One") && len(args) == 0:
 		return fOne
+	case core.IsFunc(callee, "bandersnatch/fr", "NewElement") && len(args) == 1:
+		if k, ok := args[0].(int64); ok {
+			return fU(k)
+		}
 	case core.IsFunc(callee, "bandersnatch/fr", "BatchInvert") && len(args) == 1:
 		s, ok := args[0].(fslice)
 		if !ok {
@@ -700,7 +760,10 @@ func (f *folder) doCall(x *ssa.Call, args []any, get func(ssa.Value) any) any {
 			return r
 		}
 	}
-	if !core.InModule(callee) {
+	if f.symGlobals && core.IsMethod(callee, "sync", "Once", "Do") {
+		return nil // one-time initialisation of the dependency's constants, which are opaque here
+	}
+	if !core.InModule(callee) && !f.enterDeps {
 		f.fail("%s: call of %s, outside the module", x, callee.String())
 	}
 	return f.call(callee, args, bind)
